@@ -232,6 +232,11 @@ fn apply_policy(req: &DHCPRequest, policy: &config::Policy, response: &mut Respo
         response.address = Some(address.clone()); /* HELP: I tried to make the lifetimes worked, and failed */
     }
 
+    /* Likewise for the maximum lease time */
+    if let Some(maxlease) = policy.apply_max_lease {
+        response.maxlease = Some(maxlease);
+    }
+
     /* Now get the list of parameters we will apply from the parameter list from the client.
      */
     // TODO: This should probably just be a u128 bitvector
